@@ -742,13 +742,22 @@ fn dump<'tcx>(tcx: TyCtxt<'tcx>) {
             DefKind::Struct | DefKind::Enum => {
                 let def = tcx.adt_def(did.to_def_id());
                 let mut vars: Vec<V> = Vec::new();
-                for v in def.variants().iter() {
+                let discrs: Vec<i128> = if def.is_enum() {
+                    def.discriminants(tcx).map(|(_, d)| d.val as i128).collect()
+                } else {
+                    Vec::new()
+                };
+                for (vi, v) in def.variants().iter().enumerate() {
                     let mut fields: Vec<V> = Vec::new();
                     for f in v.fields.iter() {
                         let ft = tcx.type_of(f.did).instantiate_identity().skip_norm_wip();
                         fields.push(V::O(vec![("n", s(f.name.to_string())), ("t", s(cx.ty_str(ft)))]));
                     }
-                    vars.push(V::O(vec![("n", s(v.name.to_string())), ("fields", V::A(fields))]));
+                    vars.push(V::O(vec![
+                        ("n", s(v.name.to_string())),
+                        ("d", match discrs.get(vi) { Some(d) => V::I(*d), None => V::Null }),
+                        ("fields", V::A(fields)),
+                    ]));
                 }
                 adts.push(V::O(vec![
                     ("path", s(cx.path(did.to_def_id()))),
